@@ -13,8 +13,9 @@ if [ -n "$(git -C "$REPO" status --porcelain --untracked-files=no)" ]; then echo
 git -C "$REPO" apply "$PWD/$dir/patch.diff" || { echo "patch does not apply"; exit 2; }
 trap 'git -C "$REPO" checkout -- . ; git -C "$REPO" clean -fdq -e target >/dev/null 2>&1' EXIT
 for p in $props; do
-  for seed in ${SEEDS:-1}; do
-    out=$(VERIF_SEED=$seed ./check "$p" --tier quick 2>&1); rc=$?
+  # default: the seed the registered commands use (no VERIF_SEED); SEEDS="1 2 3" for others
+  for seed in ${SEEDS:-default}; do
+    if [ "$seed" = default ]; then out=$(./check "$p" --tier quick 2>&1); rc=$?; else out=$(VERIF_SEED=$seed ./check "$p" --tier quick 2>&1); rc=$?; fi
     nv=$(printf '%s\n' "$out" | grep -c '^VIOLATION')
     echo "seeded=$name property=$p seed=$seed exit=$rc violations=$nv"
     printf '%s\n' "$out" | grep '^VIOLATION' | head -3
